@@ -53,7 +53,7 @@ import (
 )
 
 func init() {
-	fw.Register(&fw.Check{ID: "C33", Level: "model_checking", Run: runC33, QuickBudget: 100, ThoroughBudget: 1400})
+	fw.Register(&fw.Check{ID: "C33", Level: "model_checking", Run: runC33, QuickBudget: 150, ThoroughBudget: 1400})
 }
 
 type i33Op struct {
